@@ -438,13 +438,19 @@ class OscNrtInterface(OscInterface):
         self._osc_score.add([time, *elements])
 
     @staticmethod
+    def _time_is_relative():
+        # Within a routine, or a function awakened by a clock, the time of a
+        # bundle is relative to the current logical time. From the main thread
+        # it's always absolute time (from zero as reference time).
+        return _libsc3.main.current_tt is not _libsc3.main.main_tt\
+            or _libsc3.main._in_awake_call
+
+    @staticmethod
     def _get_timetag(send_time, time):  # override
         # Changes in this method must be synced with OscScore._get_logical_time.
         if time is None or time < 0.0:
             time = 0.0  # IMMEDIATELY is not needed in nrt.
-        # In NRT bundle's time generated outside a routine is
-        # always absolute time (from zero as reference time).
-        if _libsc3.main.current_tt is not _libsc3.main.main_tt:
+        if OscNrtInterface._time_is_relative():
             time += send_time
         return int(time * clk.SystemClock._SECONDS_TO_OSC)
 
@@ -509,7 +515,7 @@ class OscScore():
         # Changes in this method must be synced with it, or refactored.
         if time is None or time < 0.0:
             time = 0.0
-        if _libsc3.main.current_tt is not _libsc3.main.main_tt:
+        if OscNrtInterface._time_is_relative():
             time += send_time
         return time
 
@@ -522,7 +528,7 @@ class OscScore():
         # Those methods and this one would need refactoring all at once.
         # The marker closes the score, it can't precede the last bundle.
         last = self._scoreq.peek(False)[0]
-        if _libsc3.main.current_tt is _libsc3.main.main_tt:
+        if not OscNrtInterface._time_is_relative():
             tailtime += _libsc3.main.current_tt._seconds
             tailtime = max(tailtime, last)
         else:
